@@ -120,7 +120,7 @@ func ZZ_C16_Stream() {
 		<-client.ret
 	}
 	w := connect("first-handshake")
-	emitted, floor := 0, 0
+	emitted, floor, restarts := 0, 0, 0
 	subs := map[string]bool{}
 	filters := []string{"a", "b/+"}
 	check := func() {
@@ -169,10 +169,19 @@ func ZZ_C16_Stream() {
 				zzrt.Cover("cut-with-events-on-the-wire")
 			}
 			cut(w)
-			if zzrt.Choice(2) == 1 {
+			switch zzrt.Choice(3) {
+			case 1:
 				B.sessionMgr.del("A")
 				floor = emitted
 				zzrt.Cover("session-lost")
+			case 2:
+				// the sending node was restarted: it says Hello with a new session id while
+				// the receiver still holds the old session; both sides start over (the
+				// receiver forgets A's state, the sender re-sends its whole state)
+				restarts++
+				pA.sessionID = "s" + string(rune('1'+restarts))
+				floor = emitted
+				zzrt.Cover("sender-restarted")
 			}
 			w = connect("re-handshake")
 			zzrt.Cover("reconnected")
